@@ -105,7 +105,12 @@ static void step(World& w, const Op& op, std::string& oc, std::string& ot, bool&
       oc = rc(splinetable_glamfit(h, &nd, a.w.data(), &cp, &order, &kp, &nk, &sm, &po, mono, false));
       std::vector<std::vector<double>> coords{a.xs}, kn{a.knots}; std::vector<uint32_t> ord{order}, pov{po}; std::vector<double> smv{sm};
       ot = cpp([&] { t->fit(nd, a.w, coords, ord, kn, smv, pov, mono, false); }); if (!bad) w.nconv[op.h] = 0; break; }
-    case K_GRIDEVAL: { if (!pop) { applicable = false; return; } uint32_t nd = t->get_ndim(); std::vector<std::vector<double>> coords; std::vector<const double*> cp; std::vector<uint32_t> nn;
+    case K_GRIDEVAL: {
+      if (!pop) {   // a failing call (no table behind the handle): non-zero return AND *result reset to NULL, as the header promises, so that callers may destroy it unconditionally
+        double g0[2] = {0.5, 1.5}; const double* cp0[1] = {g0}; uint32_t nn0[1] = {2}; struct ndsparse* r = (struct ndsparse*)(uintptr_t)0x10;
+        int rv = splinetable_grideval(h, cp0, nn0, &r);
+        oc = rc(rv) + (r == nullptr ? " result=NULL" : " result=left-as-it-was"); ot = "rc=1 result=NULL"; break; }
+      uint32_t nd = t->get_ndim(); std::vector<std::vector<double>> coords; std::vector<const double*> cp; std::vector<uint32_t> nn;
       for (uint32_t i = 0; i < nd; i++) { const double* k = t->get_knots(i); std::vector<double> g; for (int j = 0; j < 3; j++) g.push_back(k[t->get_order(i)] + (0.2 + 0.3 * j) * (k[t->get_ncoeffs(i)] - k[t->get_order(i)])); coords.push_back(g); }
       for (auto& g : coords) { cp.push_back(g.data()); nn.push_back(g.size()); }
       struct ndsparse* r = nullptr; oc = rc(splinetable_grideval(h, cp.data(), nn.data(), &r)); std::unique_ptr<photospline::ndsparse> r2; ot = cpp([&] { r2 = t->grideval(coords); });
